@@ -383,7 +383,11 @@ def gen_scenario(rng, git):
     for r in rng.sample(POOL, rng.randrange(0, len(POOL) + 1)):
         up[r] = gen_text(rng).encode()
     if rng.random() < 0.35: up['bin.dat'] = bytes([255, 254, rng.randrange(256)])
-    up_noise = {r: b'upstream meta\n' for r in rng.sample(['.git/HEAD', '.agentpack/up.json', 'sub/.git/config', 'sub/.agentpack/n'], rng.randrange(0, 3))}
+    if rng.random() < 0.35:
+        # metadata names that are regular FILES (a gitlink `.git` file of a submodule / linked worktree): filtered all the same
+        up_noise = {r: b'gitdir: ../.git/modules/x\n' for r in rng.sample(['.git', 'sub/.git', 'deep/er/.git', 'sub/.agentpack'], rng.randrange(1, 3))}
+    else:
+        up_noise = {r: b'upstream meta\n' for r in rng.sample(['.git/HEAD', '.agentpack/up.json', 'sub/.git/config', 'sub/.agentpack/n'], rng.randrange(0, 3))}
     scopes = [s for s in ('global', 'machine', 'project') if rng.random() < 0.6]
     return {'id': mid, 'upstream': up, 'up_noise': up_noise, 'scopes': scopes}
 
